@@ -2189,6 +2189,229 @@ theorem cex_append_context :
   · have : arrayIndex? "-2" = none := by decide
     simp [cexOps2, eval, evalOp, PatchOp.toSpec, pp_m2, getP, cexDoc, this]
 
+/-! ### W. the rendering of one hunk with an ARBITRARY pointer writer `W`
+
+`renderPatchHunk` is `renderPatchHunkW writePointerPath`. The shape lemmas and the simulation
+`renderPatchHunkW_sim` use nothing about the writer but `PtrOKW W` (what it writes parses, RFC 6901, to
+the tokens of the path): JdProofs.PatchNeverMorePermissive instantiates them with a writer that does
+not refuse number-like member names (which `readPointer` produces since the repair D30). -/
+
+/-- the context test of `renderPatchHunk` (before: `f i = i - 1`, after: `f i = i + |Remove|`) -/
+def ctxOpsW (W : Path → Outcome String) (h : Hunk) (ctx : List Json) (f : Int → Int) : Outcome (List PatchOp) :=
+  match ctx with
+  | [b] =>
+    if b.isVoid then .ok []
+    else if h.path.isEmpty then .err
+    else match lastIdx? h.path with
+      | none => .err
+      | some i =>
+        W (setLastIdx h.path (f i)) >>= fun pp =>
+          pure [{ op := "test", path := pp, value := b }]
+  | _ => .ok []
+
+
+def renderPatchHunkW (W : Path → Outcome String) (h : Hunk) : Outcome (List PatchOp) :=
+  W h.path >>= fun path =>
+  if h.remove.isEmpty && h.add.isEmpty then .err else
+  if h.before.length > 1 then .err else
+  ctxOpsW W h h.before (fun i => i - 1) >>= fun bo =>
+  if h.after.length > 1 then .err else
+  ctxOpsW W h h.after (fun i => i + (h.remove.length : Int)) >>= fun ao =>
+  pure (bo ++ ao ++ remOpsOf path h.remove ++ addOpsOf path h.add)
+
+
+theorem renderPatchHunkW_ok {W : Path → Outcome String} {h : Hunk} {ops : List PatchOp}
+    (e : renderPatchHunkW W h = .ok ops) :
+    ∃ s bo ao, W h.path = .ok s ∧ (h.remove.isEmpty && h.add.isEmpty) = false ∧
+      h.before.length ≤ 1 ∧ h.after.length ≤ 1 ∧
+      ctxOpsW W h h.before (fun i => i - 1) = .ok bo ∧
+      ctxOpsW W h h.after (fun i => i + (h.remove.length : Int)) = .ok ao ∧
+      ops = bo ++ ao ++ remOpsOf s h.remove ++ addOpsOf s h.add := by
+  unfold renderPatchHunkW at e
+  cases hs : W h.path with
+  | err => rw [hs] at e; cases e
+  | panic => rw [hs] at e; cases e
+  | ok s =>
+    rw [hs] at e
+    simp only [Outcome.bind_ok] at e
+    by_cases h1 : (h.remove.isEmpty && h.add.isEmpty) = true
+    · rw [if_pos h1] at e; cases e
+    by_cases h2 : h.before.length > 1
+    · rw [if_neg h1, if_pos h2] at e; cases e
+    rw [if_neg h1, if_neg h2] at e
+    cases hb : ctxOpsW W h h.before (fun i => i - 1) with
+    | err => rw [hb] at e; cases e
+    | panic => rw [hb] at e; cases e
+    | ok bo =>
+      rw [hb] at e
+      simp only [Outcome.bind_ok] at e
+      by_cases h3 : h.after.length > 1
+      · rw [if_pos h3] at e; cases e
+      rw [if_neg h3] at e
+      cases ha : ctxOpsW W h h.after (fun i => i + (h.remove.length : Int)) with
+      | err => rw [ha] at e; cases e
+      | panic => rw [ha] at e; cases e
+      | ok ao =>
+        rw [ha] at e
+        simp only [Outcome.bind_ok] at e
+        injection e with e
+        refine ⟨s, bo, ao, rfl, by simpa using h1, by omega, by omega, rfl, rfl, e.symm⟩
+
+theorem ctxOpsW_ok {W : Path → Outcome String} {h : Hunk} {ctx : List Json} {f : Int → Int} {bo : List PatchOp}
+    (e : ctxOpsW W h ctx f = .ok bo) :
+    (bo = [] ∧ (ctx.length = 1 → ctx = [.void])) ∨
+    ∃ b i pp, ctx = [b] ∧ b.isVoid = false ∧ lastIdx? h.path = some i ∧
+      W (setLastIdx h.path (f i)) = .ok pp ∧ bo = [{ op := "test", path := pp, value := b }] := by
+  unfold ctxOpsW at e
+  split at e
+  · rename_i b
+    by_cases hv : b.isVoid = true
+    · rw [if_pos hv] at e; injection e with e
+      left; refine ⟨e.symm, fun _ => ?_⟩
+      cases b <;> simp_all [Json.isVoid]
+    · rw [if_neg hv] at e
+      split at e
+      · cases e
+      · split at e
+        · cases e
+        · rename_i i hi
+          cases hw : W (setLastIdx h.path (f i)) with
+          | err => rw [hw] at e; cases e
+          | panic => rw [hw] at e; cases e
+          | ok pp =>
+            rw [hw] at e; injection e with e
+            right; exact ⟨b, i, pp, rfl, by simpa using hv, hi, hw, e.symm⟩
+  · injection e with e
+    left; refine ⟨e.symm, fun hl => ?_⟩
+    rename_i hne
+    match ctx, hl with
+    | [b], _ => exact absurd rfl (hne b)
+
+
+/-- the pointer jd writes for `p` parses (RFC 6901) to the tokens of `p` -/
+def PtrOKW (W : Path → Outcome String) (p : Path) : Prop := ∀ s, W p = .ok s → parsePointer s = some (ptoks p)
+
+
+/-- the rendered context test and its parsed form (`f` = index shift) -/
+theorem repL_ctxW {W : Path → Outcome String} {h : Hunk} {ctx : List Json} {f : Int → Int} {bo : List PatchOp}
+    (e : ctxOpsW W h ctx f = .ok bo)
+    (hP : ∀ i, lastIdx? h.path = some i → PtrOKW W (setLastIdx h.path (f i))) :
+    (bo = [] ∧ ∀ p, ctxT p ctx = []) ∨
+    ∃ i, lastIdx? h.path = some i ∧ RepL bo (ctxT (ptoks (setLastIdx h.path (f i))) ctx) := by
+  rcases ctxOpsW_ok e with ⟨rfl, hc⟩ | ⟨b, i, pp, rfl, hv, hi, hw, rfl⟩
+  · exact Or.inl ⟨rfl, ctxT_nil_of hc⟩
+  · right
+    refine ⟨i, hi, ?_⟩
+    simp only [ctxT, hv, Bool.false_eq_true, if_false]
+    exact .cons ⟨_, hP i hi pp hw, Or.inl ⟨rfl, rfl⟩⟩ .nil
+
+
+/-- the pointers jd writes for the hunk parse to the expected tokens (discharged by `ptrOK_of_range`) -/
+structure HunkPtrOKW (W : Path → Outcome String) (h : Hunk) : Prop where
+  ptr : PtrOKW W h.path
+  ptrBefore : ∀ i, lastIdx? h.path = some i → PtrOKW W (setLastIdx h.path (i - 1))
+  ptrAfter : ∀ i, lastIdx? h.path = some i → PtrOKW W (setLastIdx h.path (i + (h.remove.length : Int)))
+
+
+theorem renderPatchHunkW_sim (L : FloatLaws) {W : Path → Outcome String} {c r : Json} {h : Hunk} {ops : List PatchOp}
+    (hw : c.wf = true) (hok : HunkOK h) (hptr : HunkPtrOKW W h)
+    (e : applyStrict c h.path h = some r) (er : renderPatchHunkW W h = .ok ops) :
+    ∃ r', eval c (ops.map PatchOp.toSpec) = some r' ∧ untag r' = untag r := by
+  obtain ⟨s, bo, ao, hs, hne, hb1, ha1, hbo, hao, rfl⟩ := renderPatchHunkW_ok er
+  have hp := hptr.ptr s hs
+  have hRA := (repL_rem hp h.remove hok.remNoVoid).append (repL_add hp h.add hok.addNoVoid)
+  rcases eq_nil_or_snoc h.path with hnil | ⟨pp, last, hpath⟩
+  · -- root
+    have hli : lastIdx? h.path = none := by rw [hnil]; rfl
+    have hbo' : bo = [] := by
+      rcases repL_ctxW hbo hptr.ptrBefore with ⟨h1, _⟩ | ⟨i, hi, _⟩
+      · exact h1
+      · rw [hli] at hi; cases hi
+    have hao' : ao = [] := by
+      rcases repL_ctxW hao hptr.ptrAfter with ⟨h1, _⟩ | ⟨i, hi, _⟩
+      · exact h1
+      · rw [hli] at hi; cases hi
+    subst hbo' hao'
+    rw [hnil] at e
+    have := root_leaf e hok.remNoVoid hok.addNoVoid hne
+    refine ⟨r, ?_, rfl⟩
+    simp only [List.nil_append]
+    rw [eval_of_rep hRA, hnil]
+    exact this
+  · cases last with
+    | key k =>
+      have hli : lastIdx? h.path = none := by rw [hpath]; exact lastIdx_concat_key pp k
+      have hbo' : bo = [] := by
+        rcases repL_ctxW hbo hptr.ptrBefore with ⟨h1, _⟩ | ⟨i, hi, _⟩
+        · exact h1
+        · rw [hli] at hi; cases hi
+      have hao' : ao = [] := by
+        rcases repL_ctxW hao hptr.ptrAfter with ⟨h1, _⟩ | ⟨i, hi, _⟩
+        · exact h1
+        · rw [hli] at hi; cases hi
+      subst hbo' hao'
+      rw [hpath] at e
+      have hnePaths : ∀ o ∈ remT [k] h.remove ++ addT [k] h.add, o.path ≠ [] := by
+        intro o ho
+        rcases List.mem_append.1 ho with ho | ho
+        · rw [remT_path o ho]; simp
+        · rw [addT_path o ho]; simp
+      obtain ⟨r', ev, hu⟩ := nav _ hnePaths (.key k) h
+        (fun n r hw e => ⟨r, key_leaf hw e hok.remNoVoid hok.addNoVoid hne, rfl⟩) pp c r hw e
+      refine ⟨r', ?_, hu⟩
+      simp only [List.nil_append]
+      rw [eval_of_rep hRA, hpath, ptoks_concat]
+      rw [List.map_append, remT_under, addT_under] at ev
+      exact ev
+    | idx i =>
+      have hli : lastIdx? h.path = some i := by rw [hpath]; exact lastIdx_concat_idx pp i
+      rw [hpath] at e
+      have hnePaths : ∀ o ∈ listOpsT i h, o.path ≠ [] := by
+        intro o ho
+        simp only [listOpsT, List.mem_append] at ho
+        rcases ho with ((ho | ho) | ho) | ho
+        · rw [ctxT_path o ho]; simp
+        · rw [ctxT_path o ho]; simp
+        · rw [remT_path o ho]; simp
+        · rw [addT_path o ho]; simp
+      obtain ⟨r', ev, hu⟩ := nav _ hnePaths (.idx i) h
+        (fun n r hw e => idx_leaf_any L hw e hok.remNoVoid hb1 ha1 hok.wfBefore hok.wfAfter
+          (fun hm => hok.append (by rw [hli, hm]))) pp c r hw e
+      refine ⟨r', ?_, hu⟩
+      -- the rendered context tests
+      have hB : RepL bo ((ctxT [idxTok (i - 1)] h.before).map (TOp.under (ptoks pp))) := by
+        rw [ctxT_under]
+        rcases repL_ctxW hbo hptr.ptrBefore with ⟨h1, h2⟩ | ⟨i', hi', h2⟩
+        · rw [h1, h2]; exact .nil
+        · rw [hli] at hi'; cases hi'
+          rw [hpath, setLastIdx_concat, ptoks_concat] at h2
+          exact h2
+      have hA : RepL ao ((ctxT [idxTok (i + (h.remove.length : Int))] h.after).map (TOp.under (ptoks pp))) := by
+        rw [ctxT_under]
+        rcases repL_ctxW hao hptr.ptrAfter with ⟨h1, h2⟩ | ⟨i', hi', h2⟩
+        · rw [h1, h2]; exact .nil
+        · rw [hli] at hi'; cases hi'
+          rw [hpath, setLastIdx_concat, ptoks_concat] at h2
+          exact h2
+      have hR := repL_rem hp h.remove hok.remNoVoid
+      have hAd := repL_add hp h.add hok.addNoVoid
+      rw [hpath, ptoks_concat] at hR hAd
+      rw [eval_of_rep (((hB.append hA).append hR).append hAd)]
+      simp only [listOpsT, List.map_append, remT_under, addT_under] at ev
+      exact ev
+    | _ =>
+      exfalso
+      rw [hpath] at e
+      have := applyStrict_strictPath e
+      simp [strictPath_append, strictPath] at this
+
+
+theorem renderPatchHunk_eq_W (h : Hunk) : renderPatchHunk h = renderPatchHunkW writePointerPath h := by
+  rw [renderPatchHunk_eq]; rfl
+
+theorem ctxOps_eq_W (h : Hunk) (ctx : List Json) (f : Int → Int) :
+    ctxOps h ctx f = ctxOpsW writePointerPath h ctx f := rfl
+
 /-! ### axioms -/
 
 #print axioms decodeToken_ptrEscape
